@@ -31,9 +31,22 @@
 #include "snoopy.h"
 
 #include <arpa/inet.h>
+#include <fcntl.h>
+#include <limits.h>
 #include <stdio.h>
 #include <string.h>
+#include <unistd.h>
 #include <utmp.h>
+
+
+
+/*
+ * Path of the utmp file to search. Snoopy keeps its own: libc's utmp reader (utmpname/setutent/
+ * getutline_r/endutent) is ONE process-wide reader that belongs to the calling program - using it
+ * would rewind and close a file the program may be reading, and its file locking cancels and
+ * re-arms the program's alarm()/ITIMER_REAL timer.
+ */
+static char snoopy_util_utmp_filePath[PATH_MAX] = _PATH_UTMP;
 
 
 
@@ -50,26 +63,29 @@
  */
 int snoopy_util_utmp_findUtmpEntryByLine (char const * const ttyLine, struct utmp * const resultEntryBuf)
 {
-    struct utmp   searchEntry;
-    struct utmp * resultEntry;
-    int           retVal;
+    struct utmp   curEntry;
+    int           utmpFd;
+    int           retVal = SNOOPY_FALSE;
 
-    // Prepare the search conditions
-    strncpy(searchEntry.ut_line, ttyLine, UT_LINESIZE);
-    searchEntry.ut_line[UT_LINESIZE-1] = '\0';
-
-    // Do the search
-    setutent();
-    retVal = getutline_r(&searchEntry, resultEntryBuf, &resultEntry);
-    endutent();
-
-    // Failure/not found
-    if (retVal != 0) {
+    // Do the search with a private descriptor (same matching rule as getutline(): a login or user process on that line)
+    utmpFd = open(snoopy_util_utmp_filePath, O_RDONLY | O_CLOEXEC | O_NOCTTY);
+    if (-1 == utmpFd) {
         return SNOOPY_FALSE;
     }
+    while (sizeof(curEntry) == read(utmpFd, &curEntry, sizeof(curEntry))) {
+        if (
+            ((USER_PROCESS == curEntry.ut_type) || (LOGIN_PROCESS == curEntry.ut_type))
+            &&
+            (0 == strncmp(curEntry.ut_line, ttyLine, UT_LINESIZE))
+        ) {
+            memcpy(resultEntryBuf, &curEntry, sizeof(curEntry));
+            retVal = SNOOPY_TRUE;
+            break;
+        }
+    }
+    close(utmpFd);
 
-    // Found
-    return SNOOPY_TRUE;
+    return retVal;
 }
 
 
@@ -164,5 +180,6 @@ int snoopy_util_utmp_getUtmpIpAddrAsString (struct utmp const * const utmpEntry,
  */
 void snoopy_util_utmp_test_setAlternateUtmpFilePath (char const * const utmpPath)
 {
-    utmpname(utmpPath);
+    strncpy(snoopy_util_utmp_filePath, utmpPath, PATH_MAX-1);
+    snoopy_util_utmp_filePath[PATH_MAX-1] = '\0';
 }
